@@ -8,7 +8,8 @@ EXTENDS Integers, Sequences, FiniteSets, SequencesExt
 
 \* V(m, e, ln, clause, bad): add a violation record when `bad` holds
 V(viol, e, ln, clause, bad) ==
-    IF bad /\ Cardinality(viol) < 40
+    \* at most 8 records per clause and 60 in all: one noisy clause must not hide the others
+    IF bad /\ Cardinality(viol) < 60 /\ Cardinality({v \in viol : v.clause = clause}) < 8
     THEN viol \cup {[clause |-> clause, scn |-> e.scn, line |-> ln]}
     ELSE viol
 
